@@ -8,7 +8,7 @@
    validation resumes, from InitSt, at the next execution boundary ("new" event), so one
    rejected execution does not leave the rest of the trace unexamined. *)
 EXTENDS Naturals, Sequences, TLC, Json, IOUtils
-CONSTANTS Log, InitSt, StepOf(_, _)
+CONSTANTS Log, InitSt, StepOf(_, _), ResyncAtNew   \* ResyncAtNew = FALSE for stateless specs: every event is judged on its own
 VARIABLES st, l
 RECURSIVE SkipToNew(_)
 SkipToNew(i) == IF i > Len(Log) THEN i ELSE IF Log[i].e = "new" THEN i ELSE SkipToNew(i + 1)
@@ -18,7 +18,7 @@ Next == /\ l <= Len(Log)
            THEN st' = InitSt /\ l' = l + 1
            ELSE LET r == StepOf(st, Log[l]) IN
                 IF r.ok THEN st' = r.st /\ l' = l + 1
-                ELSE PrintT(<<"MISMATCH", l>>) /\ st' = InitSt /\ l' = SkipToNew(l + 1)
+                ELSE PrintT(<<"MISMATCH", l>>) /\ (IF ResyncAtNew THEN st' = InitSt /\ l' = SkipToNew(l + 1) ELSE st' = st /\ l' = l + 1)
         /\ TLCSet(7, l')   \* register 7 = first line not yet consumed (run with -workers 1)
 Spec == Init /\ [][Next]_<<st, l>>
 Done == PrintT(<<"TRACE_DONE", TLCGet(7) - 1>>)
